@@ -454,7 +454,8 @@ impl JpegBitstreamReconstructor<'_, '_, '_> {
             // DHT
             0xc4 => {
                 let last_idx = self.huffman_code_ptr.iter().position(|hc| hc.is_last);
-                let num_tables = last_idx.expect("is_last not found") + 1;
+                // A DHT marker needs a group of tables that ends; hostile data may have none left.
+                let num_tables = last_idx.ok_or(Error::InvalidData)? + 1;
                 let (hcs, remainder) = self.huffman_code_ptr.split_at(num_tables);
                 self.huffman_code_ptr = remainder;
 
@@ -534,7 +535,12 @@ impl JpegBitstreamReconstructor<'_, '_, '_> {
 
                 let comps = &si.component_info;
                 for c in comps {
-                    let id = self.header.components[c.comp_idx as usize].id;
+                    let id = self
+                        .header
+                        .components
+                        .get(c.comp_idx as usize)
+                        .ok_or(Error::InvalidData)?
+                        .id;
                     let table = (c.dc_tbl_idx << 4) | c.ac_tbl_idx;
                     writer
                         .write_all(&[id, table])
